@@ -486,11 +486,12 @@ Definition full_order : list sop := [SClear; SSer; SRenBak; SRenMain; SRemBak].
 
 (* the mechanisms the property rests on, as a decidable condition on the generated shape:
    flag cleared before serialising; serialisation and renames inside a try whose handler
-   catches OSError and RuntimeError and stores True; no finally that touches the flag *)
+   catches OSError and stores True; no finally that touches the flag.  (RuntimeError need
+   not be caught here: it only follows a message, whose alert() has set the flag again.) *)
 Definition good_save (c : save_cfg) : bool :=
   sops_eqb (sv_order c) full_order
   && Nat.leb (sv_protect_from c) 1
-  && covers (sv_handler c) FOSError && covers (sv_handler c) FRuntimeError
+  && covers (sv_handler c) FOSError
   && match sv_handler_sets c with Some true => true | _ => false end
   && match sv_finally_sets c with None => true | Some _ => false end.
 
